@@ -77,26 +77,6 @@ mod h {
     range_harnesses!(isize, usize, t_isize);
     range_harnesses!(usize, usize, t_usize);
 
-    // ---- determinism: the stream is a function of the seed; `next` reads nothing but the generator state
-    #[kani::proof]
-    fn lcg_deterministic() {
-        let seed: u64 = kani::any();
-        let mut a = Rng::from_seed(seed);
-        let mut b = Rng::from_seed(seed);
-        let x: u64 = a.next_raw();
-        let y: u64 = b.next_raw();
-        assert!(x == y);
-        assert!(x == seed.wrapping_mul(6364136223846793005).wrapping_add(1442695040888963407));
-        let c = a;                      // a copy continues with the same stream
-        let mut c = c;
-        assert!(a.next_raw() == c.next_raw());
-        let (s, e): (i32, i32) = (kani::any(), kani::any());
-        kani::assume(s < e);
-        let p: i32 = a.next(s..e);
-        let q: i32 = c.next(s..e);
-        assert!(p == q);
-    }
-
     // ---- shuffle returns a rearrangement (BOUNDED: slice length <= 4, generator state symbolic)
     fn shuffle_n<const N: usize>() {
         let seed: u64 = kani::any();
@@ -115,17 +95,17 @@ mod h {
     }
     #[kani::proof]
     #[kani::unwind(6)]
-    fn shuffle_len4() {
+    fn bounded_shuffle_len4() {
         shuffle_n::<4>();
     }
     #[kani::proof]
     #[kani::unwind(4)]
-    fn shuffle_len2() {
+    fn bounded_shuffle_len2() {
         shuffle_n::<2>();
     }
     #[kani::proof]
     #[kani::unwind(3)]
-    fn shuffle_len0_1() {
+    fn bounded_shuffle_len0_1() {
         shuffle_n::<0>();
         shuffle_n::<1>();
     }
